@@ -8,7 +8,7 @@ ID = 'C11'
 HARNESS = {'asan': ['xv_regex']}
 RULE = ('one case = one generated M6 pattern (XML Schema dialect, option X) with its subject set: every string over the pattern\'s own '
         'alphabet (<=4 symbols, incl. a sentinel tail symbol for half of the patterns) up to length 5 (4 on the quick tier when the alphabet has '
-        '4 symbols) + sampled members, one-edit neighbours of members and random strings up to length 40 (12 when a variable quantifier spans more than one atom, 7 when quantifiers nest 3 deep) '
+        '4 symbols) + sampled members, one-edit neighbours of members and random strings up to length 40 (less when the estimated backtracking cost C(n+v,v), v = variable-quantifier instances, exceeds 2e6; 12 when a variable quantifier spans more than one atom, 7 when quantifiers nest 3 deep) '
         'over the curated alphabet incl. supplementary characters; per case also: well-formed => constructor does not throw, 2 '
         'malformed mutations => ParseException, option/Match/fresh-object/reuse-order variants and the window form on a subject subset '
         '(metamorphic against the primary verdict), and for every 3rd case the same pattern in the non-schema dialect (search verdict, match '
@@ -61,24 +61,53 @@ def u16len(s): return len(s.encode('utf-16-le')) // 2
 # ------------------------------------------------------------------------------------------------------------------
 class Watchdog(Exception): pass
 
-# hard bound on the Python `re` witness (a backtracking engine without a step limit): (a) structural -- the witness is not asked about
-# a subject longer than RE_MAXLEN when the pattern lets a variable quantifier span more than one atom (counted re_skipped); (b) an
-# interval timer around every witness call as a backstop (sre polls for signals inside its match loop) -- counted re_timeout.
-# A subject without a witness answer is not asserted.
-import signal
-RE_MAXLEN = 12
-RE_SECONDS = 10
-class ReTimeout(Exception): pass
-def _on_alarm(signum, frame): raise ReTimeout()
-def bounded(fn, *args):
-    """-> fn(*args), or ReTimeout after RE_SECONDS"""
-    old = signal.signal(signal.SIGALRM, _on_alarm)
-    signal.setitimer(signal.ITIMER_REAL, RE_SECONDS)
-    try:
-        return fn(*args)
-    finally:
-        signal.setitimer(signal.ITIMER_REAL, 0)
-        signal.signal(signal.SIGALRM, old)
+# Hard bound on the Python `re` witness (a backtracking engine without a step limit, whose single-character repeat loops do not
+# even poll for signals):
+#  (a) structural: long subjects are generated only up to rm.backtrack_len_bound(ast) characters, and the witness is not asked about a
+#      subject longer than that (counted re_skipped);
+#  (b) hard: for every pattern that is not trivially cheap the witness runs in a forked child that streams its answers through a pipe;
+#      after RE_SECONDS without the complete answer the child is killed and the unanswered subjects are dropped (counted re_timeout).
+# A subject without a witness answer is never asserted.
+import select, signal, struct, time as _time
+RE_SECONDS = 20
+
+def witness_answers(fn, subjects, fork):
+    """-> list of ints (fn(s) for s in subjects; None where the witness gave no answer).  fn returns an int in [-2, 32000]."""
+    if not fork:
+        out = []
+        for s in subjects:
+            try: out.append(fn(s))
+            except RecursionError: out.append(None)
+        return out
+    r, w = os.pipe()
+    pid = os.fork()
+    if pid == 0:
+        try:
+            os.close(r)
+            for s in subjects:
+                try: v = fn(s)
+                except RecursionError: v = -3
+                os.write(w, struct.pack('<h', v))
+        finally:
+            os._exit(0)
+    os.close(w)
+    buf = b''; deadline = _time.monotonic() + RE_SECONDS; need = 2 * len(subjects)
+    while len(buf) < need:
+        left = deadline - _time.monotonic()
+        if left <= 0: break
+        rr, _, _ = select.select([r], [], [], left)
+        if not rr: break
+        chunk = os.read(r, 65536)
+        if not chunk: break
+        buf += chunk
+    os.close(r)
+    if len(buf) < need:
+        try: os.kill(pid, signal.SIGKILL)
+        except OSError: pass
+    os.waitpid(pid, 0)
+    vals = [struct.unpack_from('<h', buf, 2 * i)[0] for i in range(len(buf) // 2)]
+    vals = [None if v == -3 else v for v in vals]
+    return vals + [None] * (len(subjects) - len(vals))
 
 def call(ex, kind, pattern, opts, subjects, mode='', wins=None, rep=None):
     req = {'kind': kind, 'pat': xv.esc(pattern), 'opts': opts, 'n': len(subjects), 'subj': '\n'.join(xv.esc(s) for s in subjects), 'mode': mode}
@@ -138,15 +167,14 @@ def build_subjects(c, lang, syms, tier):
         frontier = [p + ch for p in frontier for ch in syms]
         out.extend(frontier)
     nshort = len(out)
-    # bound the backtracking cost of BOTH backtracking engines involved (Xerces and the Python `re` witness, which has no watchdog)
-    qd = rm.quant_depth(lang.ast)
-    maxlen = (7 if qd >= 3 else 12) if rm.is_risky(lang.ast) else 40
+    # bound the backtracking cost of BOTH backtracking engines involved (Xerces and the Python `re` witness)
+    maxlen = rm.backtrack_len_bound(lang.ast)
     safe = [ch for ch in rm.UNIVERSE if ch not in lang.unsafe]
     longs = []
     members = []
     for i, tape in enumerate(c['tapes']):
         m = rm.sample_member(lang, tape, maxlen, syms if i % 2 else None)
-        if m is not None and len(m) <= maxlen + 4: members.append(m); longs.append(m)
+        if m is not None and len(m) <= maxlen: members.append(m); longs.append(m)
     for (op, a, b), m in zip(c['edits'], members + members):
         if not m and op != 1: continue
         pos = a % (len(m) + 1); ch = safe[b % len(safe)]
@@ -158,7 +186,7 @@ def build_subjects(c, lang, syms, tier):
         longs.append(''.join(pool[i % len(pool)] for i in idxs[:maxlen]))
     seen = set(out)
     for s in longs:
-        if s not in seen and len(s) <= 44: seen.add(s); out.append(s)
+        if s not in seen and len(s) <= maxlen + 1: seen.add(s); out.append(s)
     return out, nshort
 
 # ------------------------------------------------------------------------------------------------------------------
@@ -205,18 +233,20 @@ def check_pattern(c, ex, st_, tier):
     except (re.error, RecursionError, OverflowError):
         st_.extra['witness_unavailable'] = st_.extra.get('witness_unavailable', 0) + 1; return
     exp = []; asserted = []
-    risky = rm.is_risky(ast)
+    lenbound = rm.backtrack_len_bound(ast)
+    cheap = (not rm.is_risky(ast)) and rm.nvar(ast) <= 3
+    asked = [s for s in subjects if len(s) <= lenbound]
+    answers = dict(zip(asked, witness_answers(lambda t: 1 if wit.fullmatch(t) is not None else 0, asked, not cheap)))
     for s in subjects:
         acc = lang.prefix_accepts(s)
         e = acc[-1]
-        if risky and len(s) > RE_MAXLEN:
+        if s not in answers:
             st_.extra['re_skipped'] = st_.extra.get('re_skipped', 0) + 1
             exp.append(None); asserted.append(False); continue
-        try: w = bounded(wit.fullmatch, s) is not None
-        except RecursionError: w = None
-        except ReTimeout:
+        if answers[s] is None:
             st_.extra['re_timeout'] = st_.extra.get('re_timeout', 0) + 1
             exp.append(None); asserted.append(False); continue
+        w = bool(answers[s])
         if w is None or w != e:
             st_.oracle_disagreements += 1
             if len(st_.extra.setdefault('disagreement_samples', [])) < 3: st_.extra['disagreement_samples'].append({'pattern': text, 'subject': s, 'model': e, 're': w})
@@ -370,16 +400,21 @@ def check_search(c, ast, lang_schema, ex, st_, subjects, nshort):
     try: wit = re.compile(rm.to_python_re(ast, lang))
     except (re.error, RecursionError, OverflowError): return
     exp = []
-    risky = rm.is_risky(ast)
+    lenbound = rm.backtrack_len_bound(ast)
+    cheap = (not rm.is_risky(ast)) and rm.nvar(ast) <= 3
+    asked = [s for s in subset if len(s) <= lenbound]
+    def _start(t):
+        m = wit.search(t)
+        return -1 if m is None else m.start()
+    answers = dict(zip(asked, witness_answers(_start, asked, not cheap)))
     for s in subset:
         f = lang.find_leftmost(s)
-        if risky and len(s) > RE_MAXLEN:
+        if s not in answers:
             st_.extra['re_skipped'] = st_.extra.get('re_skipped', 0) + 1; exp.append('drop'); continue
-        try: w = bounded(wit.search, s)
-        except RecursionError: w = False
-        except ReTimeout:
+        if answers[s] is None:
             st_.extra['re_timeout'] = st_.extra.get('re_timeout', 0) + 1; exp.append('drop'); continue
-        if w is False or (w is None) != (f is None) or (f is not None and w.start() != f[0]):
+        w = answers[s]
+        if (w < 0) != (f is None) or (f is not None and w != f[0]):
             st_.oracle_disagreements += 1; exp.append('drop'); continue
         exp.append(f)
     st_.labels['search-case'] += 1
